@@ -127,6 +127,16 @@ func c09overrides() []c09override {
 		{"scope", sv(func(s *Service) { s.Scope = P("contextual") }), sv(func(s *Service) { s.Scope = P("shared") })},
 		{"todo", func(c *Cfg) { svcIn(c, "s4").Todo = P(true) }, func(c *Cfg) { s := svcIn(c, "s4"); s.Todo = P(false); s.Value = P("pk.Var") }},
 		{"parameter", func(c *Cfg) { c.Params = append(c.Params, Param{"p9", "decoy"}) }, func(c *Cfg) { c.Params = append(c.Params, Param{"p9", 99}) }},
+		{"parameter-decoy-of-unsupported-kind", func(c *Cfg) { c.Params = append(c.Params, Param{"p9", Raw("[a, {b: c}]")}) }, func(c *Cfg) { c.Params = append(c.Params, Param{"p9", "scalar"}) }},
+		{"todo-then-defined", func(c *Cfg) {
+			s := svcIn(c, "s5")
+			s.Todo, s.Getter, s.MustGetter, s.Type = P(true), P("GetS5"), P(true), P("*pk.Obj")
+			s.Tags = []Tag{{Name: "t5", Priority: P(2)}}
+		}, func(c *Cfg) {
+			s := svcIn(c, "s5")
+			s.Todo, s.Constructor = P(false), P("pk.New")
+			s.Args = []any{1}
+		}},
 		{"import", mt(func(m *Meta) { m.Imports = append(m.Imports, KV{"pz", "fx/decoy"}) }), func(c *Cfg) {
 			m := metaIn(c)
 			m.Imports = append(m.Imports, KV{"pz", "fx/pk2"})
@@ -417,6 +427,12 @@ func init() {
 						if ov.id == "arguments-empty-does-not-replace" {
 							one = c09overrideContext()
 							ov.decoy(one)
+						}
+						if ov.id == "todo-then-defined" {
+							// what the earlier file says and the later one does not touch stays: the single-file form has both
+							one = c09overrideContext()
+							ov.decoy(one)
+							ov.real(one)
 						}
 						if place == 1 || place == 3 {
 							one.Params = append(one.Params, Param{"unrelated", 1})
